@@ -330,6 +330,54 @@ def canary_tests(ck, rng):
                             ck.violation("canary:%s:%s:%s:non-finite" % (cls.__name__, ver, order), {"i": i, "ngrids": ngrids})
 
 
+def level_consistency(ck, rng):
+    """The parameter list of a feature is laid out by exponent level: [a0, grad_mul, extras...] at GGA level, [a0, grad_mul,
+    tau_mul, extras...] at MGGA level.  A GGA-level plan and the MGGA-level plan with tau_mul = 0 and the SAME extras describe
+    the same kernels, so their interpolation coefficients at given exponents must be identical, for every spec (incl. the one
+    with an extra argument), both plan classes and both coefficient orders: an extra argument looked up at the wrong position
+    (or not handed to the C routine at all, which then reads past a zero-length array) shows as a difference."""
+    from ciderpress.dft.plans import NLDFGaussianPlan, NLDFSplinePlan
+    from ciderpress.dft.settings import ALLOWED_J_SPECS, NLDFSettingsVIJ, NLDFSettingsVJ, NLDFSettingsVK
+    specs = list(ALLOWED_J_SPECS) + ["se_erf_rinv"]
+
+    def params(level, k, spec):
+        p = [1.3 + 0.4 * k, 0.01 * (k + 1)] + ([0.0] if level == "MGGA" else [])
+        if spec == "se_erf_rinv":
+            p.append(0.7 + 0.9 * k)
+        return p
+    a = np.ascontiguousarray(rng.uniform(0.02, 3.0, 23))
+    for ver in ("j", "ij", "k"):
+        plans = {}
+        for level in ("GGA", "MGGA"):
+            th = [1.0, 0.02] + ([0.0] if level == "MGGA" else [])
+            ps = [params(level, k, sp) for k, sp in enumerate(specs)]
+            if ver == "j":
+                nl = NLDFSettingsVJ(level, th, "one", specs, ps)
+            elif ver == "ij":
+                nl = NLDFSettingsVIJ(level, th, "one", ["se", "se_r2"], ["se_grad"], [(0, 0), (-1, 0)], specs, ps)
+            else:
+                nl = NLDFSettingsVK(level, th, "one", [p[:3 if level == "MGGA" else 2] for p in ps[:2]], "exponential")
+            plans[level] = nl
+        for cls in (NLDFGaussianPlan, NLDFSplinePlan):
+            for order in ("gq", "qg"):
+                kw = {"spline_size": 40} if cls is NLDFSplinePlan else {}
+                try:
+                    pg = cls(plans["GGA"], 1, 0.01, 1.8, 11, coef_order=order, **kw)
+                    pm = cls(plans["MGGA"], 1, 0.01, 1.8, 11, coef_order=order, **kw)
+                except Exception as ex:
+                    ck.violation("level-consistency:%s:%s:construct-%s" % (cls.__name__, ver, type(ex).__name__), {"msg": str(ex)[:200]})
+                    continue
+                for i in range(-1, plans["GGA"].num_feat_param_sets):
+                    ck.count(key=("levels", ver, cls.__name__, order, i))
+                    cg, dg = pg.get_interpolation_coefficients(a, i=i)
+                    cm, dm_ = pm.get_interpolation_coefficients(a, i=i)
+                    err = max(float(np.abs(cg - cm).max()), float(np.abs(dg - dm_).max())) / (1.0 + float(np.abs(cm).max()))
+                    if not err <= 1e-13:
+                        spec = "theta" if i < 0 else (specs[i] if ver != "k" else "k")
+                        ck.violation("level-consistency:%s:%s:%s:GGA-level-coefficients-differ-from-MGGA-with-tau_mul=0" % (cls.__name__, ver, spec),
+                                     {"order": order, "i": i, "rel_err": err})
+
+
 def subprocess_guards(ck):
     """Inputs that could corrupt memory are tried in a child process: they must be refused with a
     Python exception (or succeed), never kill the interpreter."""
@@ -427,6 +475,7 @@ def main():
     check_generated_counts(ck, rng)
     plan_guard(ck)
     canary_tests(ck, rng)
+    level_consistency(ck, rng)
     subprocess_guards(ck)
     ck.assumptions = ["canary frames detect out-of-bounds WRITES only (stray reads show up only as wrong results elsewhere)",
                       "VK settings take no spec list in this tree: only all-'se' states bind for version k",
